@@ -13,6 +13,7 @@ import PdfVerif.Lemmas.FiltersChain
 import PdfVerif.Lemmas.FiltersA85
 import PdfVerif.Lemmas.FiltersLzw
 import PdfVerif.Lemmas.FiltersFuel
+import PdfVerif.Lemmas.FiltersGen
 
 namespace PdfVerif.Props.C03
 open PdfVerif PdfVerif.Filters PdfVerif.FilterEnc PdfVerif.Gen.Filters
@@ -383,6 +384,135 @@ theorem png_fuel (nbytes bpp : Nat) (above data : Bytes) (k : Nat) :
 theorem tiff_fuel (nbytes bpp : Nat) (hn : 0 < nbytes) (data : Bytes) (k : Nat) :
     tiffRows nbytes bpp (data.length + k) data = tiffRows nbytes bpp data.length data :=
   tiffRows_fuel nbytes bpp hn _ _ data (by omega) (by omega)
+
+/-! ## Round 6: the model's constants and row arithmetic are the ones regenerated from the Python
+
+`Gen.Filters` now also carries, regenerated on every run, the constants and straight-line
+arithmetic of lzw.py (`LZWDecoder.__init__`/`feed`), runlength.py (`rldecode`) and utils.py
+(`apply_png_predictor`, `apply_tiff_predictor`).  `nbitsAfter`, `pngNbytes`, `pngBpp` are used by
+the model directly (so `lzw_rt`, `png_rt`, … are proofs about the translated code); the theorems
+below state that every remaining hand-written constant / formula of the model equals the
+translated one, for all inputs.  An edit of the Python (Clear code, width schedule, EOD byte,
+`257 - length`, `& 255`, `(a + b) // 2`, `bpp`, `nbytes`, …) breaks one of these proofs. -/
+
+/-- lzw.py: Clear/EOD codes, the initial table (`range(256)` + two `None`s), the reset width, the
+width schedule on the table length, and the decoder's initial reader state. -/
+theorem lzw_translated :
+    (∀ st, feed st LZW_CLEAR = .ok { nbits := LZW_NBITS_RESET, init := true, ext := [], prev := some [] } []) ∧
+    (∀ st, feed st LZW_EOD = .ok st []) ∧
+    (∀ st, st.init = true → tableLen st = LZW_FIRST_FREE + st.ext.length) ∧
+    (∀ st code, st.init = true → code < LZW_LITERALS → tableGet st code = some [UInt8.ofNat code]) ∧
+    (∀ st code, LZW_LITERALS ≤ code → code < LZW_FIRST_FREE → tableGet st code = none) ∧
+    (∀ st entry x, feedGrow st entry x =
+      .ok { st with ext := st.ext ++ [entry],
+                    nbits := nbitsAfter st.nbits (LZW_FIRST_FREE + (st.ext ++ [entry]).length),
+                    prev := some x } x) ∧
+    lzwInit.nbits = LZW_INIT_NBITS ∧
+    (∀ data, lzwdecode data = lzwRunB (8 * data.length + 1) lzwInit data LZW_INIT_BUFF LZW_INIT_BPOS) := by
+  refine ⟨fun _ => rfl, fun _ => rfl, ?_, ?_, ?_, fun _ _ _ => rfl, rfl, fun _ => rfl⟩
+  · intro st h; simp [tableLen, h, LZW_FIRST_FREE]
+  · intro st code h hc; simp only [LZW_LITERALS] at hc; simp [tableGet, h, hc]
+  · intro st code h1 h2
+    simp only [LZW_LITERALS, LZW_FIRST_FREE] at h1 h2
+    have : ¬ code < 256 := by omega
+    simp [tableGet, this, h2]
+
+example : feed lzwInit LZW_CLEAR = .ok { nbits := 9, init := true, ext := [], prev := some [] } [] := rfl
+example : nbitsAfter 9 511 = 10 ∧ nbitsAfter 10 1023 = 11 ∧ nbitsAfter 11 2047 = 12 ∧ nbitsAfter 12 4095 = 12 := by decide
+
+/-- runlength.py: one step of `rldecode` written with the translated EOD byte, literal / repeat
+tests and counts; the two tests exhaust the non-EOD length bytes. -/
+theorem rl_translated (fuel : Nat) (l : UInt8) (rest : Bytes) :
+    RL_EOF_DEFAULT = RL_EOD ∧
+    rldecodeAux (fuel + 1) (l :: rest) =
+      (if l.toNat = RL_EOD then .ok []
+       else if rlIsLiteral l.toNat then
+         (if rest.length < rlLiteralCount l.toNat then .error .runtimeError
+          else match rldecodeAux fuel (rest.drop (rlLiteralCount l.toNat)) with
+            | .ok r => .ok (rest.take (rlLiteralCount l.toNat) ++ r)
+            | .error e => .error e)
+       else match rest with
+         | [] => .error .stopIteration
+         | b :: rest' =>
+           match rldecodeAux fuel rest' with
+           | .ok r => .ok (List.replicate (rlRepeatCount l.toNat) b ++ r)
+           | .error e => .error e) ∧
+    (l.toNat ≠ RL_EOD → rlIsLiteral l.toNat = false → rlIsRepeat l.toNat = true) := by
+  refine ⟨rfl, ?_, ?_⟩
+  · have h := u8_beq_toNat l 128 (by omega)
+    have h' : (l == 128) = decide (l.toNat = 128) := h
+    simp only [rldecodeAux, h', RL_EOD, rlIsLiteral, rlLiteralCount, rlRepeatCount]
+    by_cases h1 : l.toNat = 128
+    · simp [h1]
+    · by_cases h2 : l.toNat < 128 <;> simp [h1, h2]
+      · by_cases h3 : List.length rest < l.toNat + 1
+        · simp [h3]
+        · simp only [h3, if_false]
+          cases rldecodeAux fuel (List.drop (l.toNat + 1) rest) <;> rfl
+      · cases rest with
+        | nil => rfl
+        | cons b r => simp only []; cases rldecodeAux fuel r <;> rfl
+  · simp only [RL_EOD, rlIsLiteral, rlIsRepeat]
+    intro h1 h2
+    simp at h2 ⊢
+    omega
+
+example : rlIsLiteral 127 = true ∧ rlLiteralCount 127 = 128 ∧ rlIsRepeat 129 = true ∧ rlRepeatCount 129 = 128
+    ∧ rlRepeatCount 255 = 2 ∧ rlIsLiteral 128 = false ∧ rlIsRepeat 128 = false := by decide
+
+/-- utils.apply_png_predictor: the byte each filter type adds back, as the translated `raw_x`
+formulas; the supported BitsPerComponent list; filter types outside the translated `if` chain raise. -/
+theorem png_translated (x a b c : UInt8) (bpc bpp : Nat) (ft : UInt8) (above enc : Bytes) :
+    (x + pngPred 1 a 0 0).toNat = pngRaw1 x.toNat a.toNat ∧
+    (x + b).toNat = pngRaw2 x.toNat b.toNat ∧
+    (x + pngPred 3 a b 0).toNat = pngRaw3 x.toNat a.toNat b.toNat ∧
+    (x + pngPred 4 a b c).toNat = pngRaw4 x.toNat (paeth_predictor a.toNat b.toNat c.toNat).toNat ∧
+    (bpc != 8 && bpc != 1) = !PNG_BPC.contains bpc ∧
+    (ft.toNat ∉ PNG_FILTER_TYPES → pngRow ft bpp above enc = .error .pdfValue) := by
+  have ha := a.toNat_lt; have hb := b.toNat_lt
+  refine ⟨?_, ?_, ?_, ?_, ?_, ?_⟩
+  · simp [pngPred, pngRaw1, u8_add_toNat]
+  · simp [pngRaw2, u8_add_toNat]
+  · have : pngPred 3 a b 0 = UInt8.ofNat ((a.toNat + b.toNat) / 2) := by simp [pngPred]
+    rw [this, u8_add_toNat, toNat_ofNat_lt _ (by omega)]; rfl
+  · have : pngPred 4 a b c = UInt8.ofNat (Int.toNat (paeth_predictor a.toNat b.toNat c.toNat % 256)) := by
+      simp [pngPred]
+    rw [this, u8_add_toNat, paeth_u8]; rfl
+  · by_cases h8 : bpc = 8 <;> by_cases h1 : bpc = 1 <;> simp [PNG_BPC, h8, h1]
+  · intro h
+    simp only [PNG_FILTER_TYPES, List.mem_cons, List.not_mem_nil, or_false, not_or] at h
+    have n0 : ft ≠ 0 := fun e => h.1 (by rw [e]; rfl)
+    have n1 : ft ≠ 1 := fun e => h.2.1 (by rw [e]; rfl)
+    have n2 : ft ≠ 2 := fun e => h.2.2.1 (by rw [e]; rfl)
+    have n3 : ft ≠ 3 := fun e => h.2.2.2.1 (by rw [e]; rfl)
+    have n4 : ft ≠ 4 := fun e => h.2.2.2.2 (by rw [e]; rfl)
+    simp [pngRow, n0, n1, n2, n3, n4]
+
+example : pngRaw3 200 255 255 = 199 ∧ pngRaw4 250 10 = 4 ∧ pngNbytes 3 5 1 = 2 ∧ pngBpp 3 1 = 1 ∧ pngBpp 4 8 = 4 := by decide
+example : pngRow 5 1 [0] [7] = .error .pdfValue := by decide
+
+/-- utils.apply_tiff_predictor: written with the translated `bpp`, `nbytes`, supported
+BitsPerComponent, the `i >= bpp` test and the modulus. -/
+theorem tiff_translated (colors columns bpc : Nat) (data : Bytes) (bpp : Nat) (raw : Bytes) (x : UInt8) (xs : Bytes) :
+    apply_tiff_predictor colors columns bpc data =
+      (if bpc != TIFF_BPC then .error .pdfValue
+       else if tiffNbytes columns (tiffBpp colors bpc) == 0 then .error .valueError
+       else tiffRows (tiffNbytes columns (tiffBpp colors bpc)) (tiffBpp colors bpc) data.length data) ∧
+    tiffRow bpp raw (x :: xs) =
+      tiffRow bpp (raw ++ [if tiffHasLeft raw.length bpp
+        then UInt8.ofNat ((x.toNat + (raw.getD (raw.length - bpp) 0).toNat) % TIFF_MOD) else x]) xs := by
+  constructor
+  · by_cases h : bpc = 8
+    · subst h; simp [apply_tiff_predictor, TIFF_BPC, tiffNbytes, tiffBpp]
+    · simp [apply_tiff_predictor, TIFF_BPC, h]
+  · simp only [tiffRow, tiffHasLeft, TIFF_MOD]
+    congr 2
+    by_cases h : raw.length ≥ bpp <;> simp [h]
+    apply UInt8.toNat_inj.mp
+    rw [u8_add_toNat, toNat_ofNat_lt _ (Nat.mod_lt _ (by omega))]
+
+example : apply_tiff_predictor 2 2 8 [1, 2, 3, 4] = .ok [1, 2, 4, 6] := by decide
+example : tiffNbytes 3 (tiffBpp 2 8) = 6 ∧ tiffHasLeft 1 2 = false ∧ tiffHasLeft 2 2 = true := by decide
 
 /-! ## The pinned code (before the two `fix:` commits) violates the property
 
